@@ -1,7 +1,7 @@
 /-
 pm_c22: model driver for C22.  Ops (one per line), see harness/cmd/c22/main.go:
   init <members csv> <h>      h = 4 groups of 7 digits, '.'-separated (placement table)
-  join <node> | leave <node> | complete <job> <node> <ok|err> | abort | failsend <-|*|csv of nodes>
+  join <node> | leave <node> | complete <job> <node> <ok|err> | abort | failsend <-|*|csv of nodes> | hold <prewait|got> | release
 After each event the internal steps are run to quiescence (`settle`) and the observation
   <ret> st=<N|R> nodes=.. cur=.. q=.. lis=<idle|wait|lock|busy> jobs=<k>:<a|r>:<n|R|D|A>:<pending>;.. par=<n>
 is printed; `#spec` is the observation the property demands, `#tag` the modelled cause when they differ.
@@ -15,6 +15,8 @@ structure DSt where
   s : St
   tab : List (List Nat)      -- tab[k][n-1]
   parked : Nat
+  armed : Option String := none   -- listener gate armed by `hold`: "prewait" | "got"
+  lheld : Bool := false           -- the listener is parked at the armed gate
 
 def hOf (tab : List (List Nat)) (k n : Nat) : Nat :=
   match tab[k]? with
@@ -33,8 +35,37 @@ def parseTab (t : String) : Option (List (List Nat)) :=
     if g.length ≠ 7 then none else
     g.toList.mapM (fun c => if c.isDigit then some (c.toNat - '0'.toNat) else none))
 
+/-- The eager scheduler of the driver, with the listener gates of the harness: armed `prewait`, the
+listener is parked right after `lGen` moved it to `wait k` (log line "wait for jobResult": job generated,
+run spawned, not yet receiving); armed `got`, right after `lRecv` (log line "received jobResult":
+`completeCurrentJob` not yet called).  A parked listener takes no step; run goroutines go on. -/
+def settleD : Nat → DSt → DSt
+  | 0, d => d
+  | fuel + 1, d =>
+    let gen : List (Label × Nat) := match d.s.lpc with
+      | .gen a => [(.lGen (planFor (hOf d.tab) keys d.s.nodes a), 1)]
+      | _ => []
+    let runs : List (Label × Nat) := match d.s.lpc with
+      | .wait k => [(.rStart k, 0), (.rGo k, 0)]
+      | .got k _ => [(.rStart k, 0), (.rGo k, 0)]
+      | _ => []
+    let lis : List (Label × Nat) := if d.lheld then [] else
+      [(.lRecv, 2), (.lComplete, 0), (.lDone2, 0), (.lTop, 0), (.lAfterDrain, 0), (.lIdle, 0)] ++ gen ++ [(.lGenErr, 0)]
+    let rec first : List (Label × Nat) → Option (Nat × St)
+      | [] => none
+      | (l, t) :: ls => match step d.s l with
+        | some s' => some (t, s')
+        | none => first ls
+    match first (lis ++ runs) with
+    | none => d
+    | some (t, s') =>
+      let atWait := match s'.lpc with | .wait _ => true | _ => false
+      let held := d.lheld || (t == 1 && d.armed == some "prewait" && atWait) || (t == 2 && d.armed == some "got")
+      settleD fuel { d with s := s', lheld := held }
+
 def answer (d : DSt) (r : Ret) : Ans :=
-  let o := modelObs r d.s d.parked
+  let o0 := modelObs r d.s d.parked
+  let o := if d.lheld then { o0 with lis := "hold" } else o0
   let (sp, viol) := specObs r d.s d.parked
   if viol.isEmpty then ans o.render else ans2 o.render sp.render (causeTag d.s r viol)
 
@@ -49,8 +80,7 @@ def deliver (d : DSt) (l : Label) : DSt × Ans :=
         | _, _ => d.s)
     | _ => (step d.s l).getD d.s
   let parked := if r == .blocked then d.parked + 1 else d.parked
-  let s2 := settle (fun nodes a => planFor (hOf d.tab) keys nodes a) 400 s1
-  let d' := { d with s := s2, parked := parked }
+  let d' := settleD 400 { d with s := s1, parked := parked }
   (d', answer d' r)
 
 def stepD (od : Option DSt) (ws : List String) : Option DSt × Ans :=
@@ -80,6 +110,13 @@ def stepD (od : Option DSt) (ws : List String) : Option DSt × Ans :=
       if n > 9 || (e ≠ "ok" && e ≠ "err") then bad else
       let (d', a) := deliver d (.complete k n (e == "err")); (some d', a)
     | _, _ => bad
+  | some d, ["hold", g] =>
+    if g ≠ "prewait" && g ≠ "got" then bad else
+    let d' := { d with armed := some g }
+    (some d', answer d' .ok)
+  | some d, ["release"] =>
+    let d' := settleD 400 { d with armed := none, lheld := false }
+    (some d', answer d' .ok)
   | some d, ["abort"] => let (d', a) := deliver d .abort; (some d', a)
   | some d, ["failsend", b] =>
     let ns? : Option (List Nat) := if b = "*" then some (List.range 10) else csvNats? b
